@@ -5,7 +5,7 @@ From Coq Require Import NArith List Bool.
 Import ListNotations.
 From Coq Require Import ZArith.
 From CXV Require Import Gen.TokTy Gen.ParserTables Parse.Balanced Gen.Blocks Parse.BlocksSM.
-From CXV Require Import Base.Regex Base.Cost Gen.LexRules Lex.PlyLoop Gen.StreamTables Stream.TokBuf Fmt.TokFmt PP.Filters Misc.ReprModel Gen.Schema.
+From CXV Require Import Base.Regex Base.Cost Gen.LexRules Lex.PlyLoop Gen.StreamTables Stream.TokBuf Fmt.TokFmt PP.Filters Misc.ReprModel Gen.Schema Parse.Fold.
 Open Scope N_scope.
 
 Definition nlen {A} (l : list A) : N := N.of_nat (length l).
@@ -267,8 +267,53 @@ Definition run_nrepr (args : list N) : list N :=
   let '(v, _) := dec_val fuel args in
   enc_expr fuel (nrepr schema fuel v).
 
+(* fold: prefix-encoded forest -> prefix-encoded scope tree *)
+Fixpoint dec_elems (fuel : nat) (k : nat) (l : list N) : list elem * list N :=
+  match fuel with
+  | O => ([], [])
+  | S f =>
+      match k with
+      | O => ([], l)
+      | S k' =>
+          let '(e, r) :=
+            match l with
+            | 1 :: kd :: p :: r => (EItem kd p, r)
+            | 2 :: nn :: r =>
+                let names := take (N.to_nat nn) r in
+                match drop (N.to_nat nn) r with
+                | nb :: r2 => let '(b, r3) := dec_elems f (N.to_nat nb) r2 in (ENs names b, r3)
+                | [] => (EItem 0 0, [])
+                end
+            | 3 :: nb :: r => let '(b, r3) := dec_elems f (N.to_nat nb) r in (EExtern b, r3)
+            | 4 :: d :: nb :: r => let '(b, r3) := dec_elems f (N.to_nat nb) r in (EClass d b, r3)
+            | _ => (EItem 0 0, [])
+            end in
+          let '(es, r') := dec_elems f k' r in (e :: es, r')
+      end
+  end.
+
+Fixpoint enc_cs (c : cscope) : list N :=
+  match c with
+  | CS d items classes =>
+      d :: nlen items :: flat_map (fun kp => [fst kp; snd kp]) items ++ nlen classes :: flat_map enc_cs classes
+  end.
+
+Fixpoint enc_ns (s : nscope) : list N :=
+  match s with
+  | NS items classes children =>
+      nlen items :: flat_map (fun kp => [fst kp; snd kp]) items ++ nlen classes :: flat_map enc_cs classes
+      ++ nlen children :: flat_map (fun ks => fst ks :: enc_ns (snd ks)) children
+  end.
+
+Definition run_fold (args : list N) : list N :=
+  match args with
+  | n :: r => let '(f, _) := dec_elems (length r) (N.to_nat n) r in enc_ns (fold_ns f)
+  | [] => [99]
+  end.
+
 Definition run_case (cmd : N) (args : list N) : list N :=
   match cmd, args with
+  | 70, _ => run_fold args
   | 60, _ => run_nrepr args
   | 50, _ => run_filter args
   | 40, _ => run_tokfmt args
